@@ -112,3 +112,31 @@ def reduces_absent_var(t):
         body = set().union(*[free_names(x) for x in t["terms"]])
         return any(n not in body for n, _ in t["vars"])
     return False
+
+
+def shared_binder_feature(t):
+    """True iff a subterm that binds a variable (a reduction / contraction with reduced
+    variables, a Lambda, a Cat) occurs at two different positions of t: funsor cons-hashes
+    the two occurrences to ONE object, so both carry the same mangled bound name."""
+    import json as _json
+    seen = {}
+    found = [False]
+
+    def binds(x):
+        c = x.get("c")
+        return (c == "Red") or (c == "Con" and x["vars"]) or c in ("Lam", "Cat", "Integ")
+
+    def walk(x):
+        if isinstance(x, dict):
+            if "c" in x and binds(x):
+                k = _json.dumps(x, sort_keys=True)
+                seen[k] = seen.get(k, 0) + 1
+                if seen[k] > 1:
+                    found[0] = True
+            for v in x.values():
+                walk(v)
+        elif isinstance(x, list):
+            for v in x:
+                walk(v)
+    walk(t)
+    return found[0]
